@@ -4,44 +4,69 @@
    parser/renderer for the literal fragment); specification: LexSpec.v (templates as texts alternating with markup,
    spec_render).  A template is a list of (text, markup) pairs and a final text; [build d tp] is its source. *)
 From Coq Require Import String.
-From LiquidVerif Require Import Prelude Lex LexSpec Lex_Proofs Lex_Match_Proofs Lex_C10_Proofs MacroArgs.
+From LiquidVerif Require Import Prelude Lex LexSpec Lex_Proofs Lex_Match_Proofs Lex_C10_Proofs LexOcc Lex_Occ_Proofs MacroArgs.
 Local Open Scope string_scope. Local Open Scope list_scope.
 
-(* For all delimiters d and all templates tp without collisions, tokenizing, parsing and rendering the source gives
-   exactly the documented rendering: every text verbatim except that it is left-stripped iff the closing delimiter
-   before it carries '-' and right-stripped iff the opening delimiter after it carries '-'; output/echo write their
-   string; a raw block writes its body; comments, doc, shorthand and inline comments write nothing.
-   PARTIAL in its hypothesis [no_collision]: texts and comment bodies range over characters that are not the first
-   character of an opening delimiter (raw/doc bodies: not the first character of the tag delimiter;
-   expressions/inline-comment bodies: not the first character of their closing delimiter, not ending in '-').
-   What is missing for the full quantifier: texts containing markup-like fragments ("{", "{ {", "%}" ...), for which
-   the occurrence/overlap reasoning about find_first is not done; those are covered by the correspondence run only.
-   Markup kinds covered: output, echo, inline comment, raw, doc, comment, shorthand comment; every combination of
-   markers; arbitrary whitespace padding inside the delimiters.  The liquid tag's inner lines are modelled
-   (Lex.liquid_tokens) and tied by the C20 correspondence but are not part of this theorem. *)
+(* For all delimiters d and all templates tp, tokenizing, parsing and rendering the source gives exactly the documented
+   rendering — every text verbatim except that it is left-stripped iff the closing delimiter before it carries '-' and
+   right-stripped iff the opening delimiter after it carries '-'; output/echo write their string; a raw block writes its
+   body; comments, doc, shorthand and inline comments write nothing — under the OCCURRENCE guard [no_collision_occ]
+   (LexOcc.v), which is what "the text does not collide with the delimiters" means exactly:
+     * a text may contain ANY characters, provided that at no position inside it an opening delimiter (tag start,
+       statement start, comment start when shorthand comments are on) is a prefix of the remaining source; this counts an
+       occurrence completed by the following markup (text "{" before "{% .. %}" forms "{{%": excluded; "{" before " x",
+       "{ {", "%}", "}}", "a-" are all fine);
+     * the quoted string of an output/echo and the body of an inline comment may contain anything, provided the closing
+       sub-pattern  \s*-?<end delimiter>  matches at no position inside it (so "}" is fine in {{ '}' }}, and a body
+       must not end in whitespace or '-' directly before the delimiter, where the regex would take it as the marker);
+     * a raw / doc body may contain anything (complete markup included) except a position at which its own closing tag
+       ( {%[-] endraw [-]%} / enddoc ) matches; a shorthand comment body anything except a position where  -?#}  matches;
+     * the body of a block comment, which the lexer scans again, is a text in the above sense (bodies containing complete
+       markup, and the inner lines of liquid tags, remain covered by the correspondence run only).
+   Proof: the general search lemma nomatch_find_first (no match at any position of a prefix => find_first lands exactly
+   at its end) instantiated for the content look-ahead and each closing pattern, one match_at lemma per shape, induction
+   over the segments with the strip flag generalised. *)
+Theorem C10_whitespace_control : forall d tp, no_collision_occ d tp = true ->
+  render_src d (build d tp) = ROut (spec_render tp).
+Proof. exact whitespace_control. Qed.
+Print Assumptions C10_whitespace_control.
+
+(* the guard position by position: exactly "no opening delimiter starts inside the text" *)
+Theorem C10_text_guard_exact : forall d t after, clean d t after = true <->
+  (forall j, j < length t -> delim_at d (skipn j (t ++ after)) = None).
+Proof. exact clean_spec. Qed.
+Print Assumptions C10_text_guard_exact.
+
+(* every template admitted by the earlier alphabet guard (texts over characters that cannot begin an opening
+   delimiter) is admitted by the occurrence guard, so the earlier theorem is a corollary *)
+Theorem C10_occurrence_guard_subsumes_alphabet_guard : forall d tp,
+  no_collision d tp = true -> no_collision_occ d tp = true.
+Proof. exact no_collision_occ_of_alphabet. Qed.
+Print Assumptions C10_occurrence_guard_subsumes_alphabet_guard.
+
 Theorem C10_whitespace_control_partial : forall d tp, no_collision d tp = true ->
   render_src d (build d tp) = ROut (spec_render tp).
-Proof. exact whitespace_control_partial. Qed.
+Proof. exact whitespace_control_alphabet. Qed.
 Print Assumptions C10_whitespace_control_partial.
 
-(* text outside markup is output verbatim (whitespace-only text included) *)
-Theorem C10_text_verbatim : forall d t, d_ok d = true -> plain d t = true -> render_src d t = ROut t.
-Proof. exact text_verbatim. Qed.
+(* text outside markup is output verbatim: any text in which no opening delimiter occurs *)
+Theorem C10_text_verbatim : forall d t, d_ok d = true -> clean d t [] = true -> render_src d t = ROut t.
+Proof. exact text_verbatim_occ. Qed.
 Print Assumptions C10_text_verbatim.
 
-(* the body of a raw block is output verbatim whatever the four markers are; only the texts around it are stripped,
-   the text after it according to the marker of ENDRAW's closing delimiter *)
+(* the body of a raw block is output verbatim whatever the four markers are and whatever markup it contains; only the
+   texts around it are stripped, the text after it according to the marker of ENDRAW's closing delimiter *)
 Theorem C10_raw_verbatim : forall d t1 l1 w1 w2 r1 body l2 w3 w4 r2 t2,
-  no_collision d ([(t1, MkRaw l1 w1 w2 r1 body l2 w3 w4 r2)], t2) = true ->
+  no_collision_occ d ([(t1, MkRaw l1 w1 w2 r1 body l2 w3 w4 r2)], t2) = true ->
   render_src d (t1 ++ msrc d (MkRaw l1 w1 w2 r1 body l2 w3 w4 r2) ++ t2)
   = ROut (strip_text false l1 t1 ++ body ++ strip_text r2 false t2).
-Proof. exact raw_verbatim. Qed.
+Proof. exact raw_verbatim_occ. Qed.
 Print Assumptions C10_raw_verbatim.
 
 (* comment, doc, shorthand-comment and inline-comment bodies are never output *)
-Theorem C10_comments_silent : forall d t1 m t2, silent m = true -> no_collision d ([(t1, m)], t2) = true ->
+Theorem C10_comments_silent : forall d t1 m t2, silent m = true -> no_collision_occ d ([(t1, m)], t2) = true ->
   render_src d (t1 ++ msrc d m ++ t2) = ROut (strip_text false (opens m) t1 ++ strip_text (closes m) false t2).
-Proof. exact comments_silent. Qed.
+Proof. exact comments_silent_occ. Qed.
 Print Assumptions C10_comments_silent.
 
 (* reading of the specification: without any hyphen nothing is removed ... *)
@@ -93,5 +118,20 @@ Proof. vm_compute. reflexivity. Qed.
 Example C10_sample_render :
   render_src default_delims (build default_delims sample) = ROut (lit " a  x hib qe  end").
 Proof. vm_compute. reflexivity. Qed.
+(* markup-like fragments in texts and markup inside raw/doc bodies now fall under the theorem (not under the alphabet guard) *)
+Definition fragments : template :=
+  ([(lit "{ { ", MkRaw false (lit " ") (lit " ") true (lit "{{ y }} {% if %} {#") false [] [] false);
+    (lit "%} }}", MkOut false (lit " ") 39%N (lit "}") [] true);
+    (lit " a- { ", MkDoc true [] [] false (lit "{% doc %} #}") false [] [] false);
+    (lit "#} %", MkShort false (lit " { ") false)], lit " { ").
+Example C10_fragments_ok : no_collision_occ default_delims fragments = true /\ no_collision default_delims fragments = false.
+Proof. split; vm_compute; reflexivity. Qed.
+Example C10_fragments_render :
+  render_src default_delims (build default_delims fragments) = ROut (lit "{ { {{ y }} {% if %} {#%} }}}a- {#} % { ").
+Proof. vm_compute. reflexivity. Qed.
+(* the boundary case: "{" directly before a tag would read as "{{" + "%..." *)
+Example C10_boundary_excluded :
+  clean default_delims (lit "{") (lit "{% # c %}") = false /\ clean default_delims (lit "{") (lit " x") = true.
+Proof. split; vm_compute; reflexivity. Qed.
 Example C10_repaired_raw : render_src default_delims (build default_delims raw_witness) = ROut (lit " x y").
 Proof. vm_compute. reflexivity. Qed.
